@@ -298,7 +298,9 @@ def eval_mutant(m, jobs, limit):
         mapped = checks_for(m["file"])
         runs = {}
         verdict = None
-        phases = [("mapped-truncated", mapped, limit), ("mapped-full", mapped, None)]
+        phases = [("mapped-truncated", mapped, limit)]
+        if FULL:
+            phases.append(("mapped-full", mapped, None))
         if OTHERS:
             phases.append(("others-truncated", [c for c in ALL if c not in mapped], limit))
         for phase, ids, lim in phases:
@@ -330,11 +332,13 @@ def eval_mutant(m, jobs, limit):
 
 
 OTHERS = False
+FULL = False
 
 
 def cmd_run(a):
-    global OTHERS
+    global OTHERS, FULL
     OTHERS = a.others
+    FULL = a.full
     muts = [json.loads(l) for l in open(os.path.join(OUT, "mutants.jsonl"))]
     done = set()
     rp = os.path.join(OUT, "results.jsonl")
@@ -425,6 +429,7 @@ if __name__ == "__main__":
     r.add_argument("--ops")
     r.add_argument("--max", type=int)
     r.add_argument("--others", action="store_true")
+    r.add_argument("--full", action="store_true")
     sub.add_parser("report")
     a = ap.parse_args()
     {"gen": cmd_gen, "run": cmd_run, "report": cmd_report}[a.cmd](a)
